@@ -187,6 +187,18 @@ def braces_in_range(lines, l0, l1):
     return cnt
 
 
+def compound_in_range(lines, l0, l1):
+    """x += e;  ->  x = x + (e);   (and -=, *=) for a plain identifier on the left of a one-line statement"""
+    cnt = 0
+    for i in range(l0 - 1, min(l1, len(lines))):
+        s = lines[i]
+        m = re.match(r"^(\s*)([A-Za-z_]\w*) (\+|-|\*)= ([^;{}\"]+);(\s*)$", s)
+        if m and "//" not in s and m.group(2) not in KEYWORDS:
+            lines[i] = "%s%s = %s %s (%s);%s" % (m.group(1), m.group(2), m.group(2), m.group(3), m.group(4), m.group(5))
+            cnt += 1
+    return cnt
+
+
 def make_copy():
     d = tempfile.mkdtemp(prefix="vneutral_", dir="/tmp")
     # committed sources (HEAD), so that a seed patch temporarily applied to /repo's working tree cannot leak into the copy
@@ -216,10 +228,17 @@ def apply(root, fns, mode):
                 if bl < len(lines) and lines[bl].rstrip().endswith("{") and "namespace" not in lines[bl] and not f.get("constexpr"):
                     lines[bl] = lines[bl].rstrip() + " [[maybe_unused]] const int verif_pad_nv = 0;"
                     total += 1
+            if mode == "compound":
+                total += compound_in_range(lines, f["l"], f["l_end"])
             if mode == "flip":
                 total += flip_in_range(lines, f["l"], f["l_end"])
             if mode == "braces":
                 total += braces_in_range(lines, f["l"], f["l_end"])
+        if mode == "shift":
+            # move every line of the file down: nothing may depend on absolute positions
+            k = 1 if lines and lines[0].startswith("/*") is False else 0
+            lines[0:0] = ["// verif: line shift", "// verif: line shift", "// verif: line shift"]
+            total += 1
         open(path, "w", encoding="utf-8", errors="surrogateescape").write("\n".join(lines))
     return total
 
